@@ -339,6 +339,7 @@ func (bucket *Bucket) inTransaction(fn func(txn *sql.Tx) error) error {
 	// However, these errors can still occur (somehow?), so we retry if we get one.
 	// --Update, 25 July 2023: After adding "_txlock=immediate" to the DB options when opening,
 	// the busy/locked errors have gone away. But there's no harm leaving the retry code in place.
+	verifPoint("txn.enter", bucket.name)
 	bucket.mutex.Lock()
 	defer bucket.mutex.Unlock()
 
